@@ -223,6 +223,51 @@ def two_runs_one_graph(ctx: Ctx) -> None:
                                   {"criterion": cname, "feats": feats, "last_operation": last.__name__, "relative_error": worst})
 
 
+def lazy_first_use(ctx: Ctx) -> None:
+    """The very first evaluation of a hedger whose model has lazy (not yet materialised) layers is the loss of the parameters it
+    then has: it equals a second evaluation on the same paths, and its gradient equals central differences."""
+    from pfhedge.instruments import BrownianStock, EuropeanOption
+    from pfhedge.nn import EntropicRiskMeasure, Hedger, MultiLayerPerceptron
+    for feats in (["log_moneyness", "time_to_maturity", "prev_hedge"], ["log_moneyness", "time_to_maturity", "volatility"]):
+        for mk_model in (lambda: MultiLayerPerceptron(n_layers=2, n_units=4).to(DT), lambda: torch.nn.Sequential(torch.nn.LazyLinear(4, dtype=DT), torch.nn.Tanh(), torch.nn.LazyLinear(1, dtype=DT), torch.nn.Tanh())):
+            torch.manual_seed(ctx.seed + 41)
+            stock = BrownianStock(cost=1e-2, dt=1 / 20, dtype=DT)
+            d = EuropeanOption(stock, maturity=6 / 20)
+            d.simulate(n_paths=16)
+            hedger = Hedger(mk_model(), list(feats), criterion=EntropicRiskMeasure(1.5))
+
+            def loss_fn() -> torch.Tensor:
+                return hedger.criterion(hedger.compute_portfolio(d), d.payoff())
+            try:
+                first = loss_fn()                                # materialises the lazy layers
+                params = list(hedger.parameters())
+                g = torch.autograd.grad(first, params, allow_unused=True)
+                again = loss_fn()
+            except Exception as e:
+                ctx.violation("fd:lazy:raises", f"the first evaluation of a hedger with lazy layers raised {type(e).__name__}", {"feats": feats, "error": repr(e)[:200]})
+                continue
+            ctx.count(("lazy", tuple(feats)), n=1)
+            if abs(first.item() - again.item()) > 1e-13 * (1 + abs(again.item())):
+                ctx.violation("fd:lazy:first-loss", "the first loss of a hedger with lazy layers differs from a second evaluation with the same parameters on the same paths",
+                              {"feats": feats, "first": first.item(), "second": again.item()})
+                continue
+            worst = 0.0
+            with torch.no_grad():
+                for p, gp in zip(params, g):
+                    flat = p.view(-1)
+                    for i in range(0, flat.numel(), max(1, flat.numel() // 3)):
+                        old = flat[i].item()
+                        flat[i] = old + 1e-6; up = loss_fn().item()
+                        flat[i] = old - 1e-6; dn = loss_fn().item()
+                        flat[i] = old
+                        fd = (up - dn) / 2e-6
+                        ad = 0.0 if gp is None else gp.view(-1)[i].item()
+                        worst = max(worst, abs(fd - ad) / (1e-4 + abs(fd) + abs(ad)))
+            if worst > 2e-4:
+                ctx.violation("fd:lazy:gradient", "the gradient back-propagated from the first evaluation of a hedger with lazy layers differs from central finite differences",
+                              {"feats": feats, "relative_error": worst})
+
+
 def check(ctx: Ctx) -> None:
     warnings.filterwarnings("ignore")
     res = ctx.tlc("MC_Grad", "MC_Grad_q_t3.cfg" if ctx.tier == "quick" else "MC_Grad_t_t4.cfg", workers=8, coverage=False)
@@ -236,6 +281,7 @@ def check(ctx: Ctx) -> None:
     grad_mode_protocol(ctx, recs[:: max(1, len(recs) // 24)])
     finite_differences(ctx)
     two_runs_one_graph(ctx)
+    lazy_first_use(ctx)
     for r in recs:
         ctx.distinct.add(json.dumps([r["p1"], r["p2"], r["cfg"], r["crit"]]))
     ctx.sample(recs[0]); ctx.sample(recs[len(recs) // 2])
